@@ -147,9 +147,13 @@ func (g *Generator) NewSchemaRefForValue(value any, schemas openapi3.Schemas) (*
 			continue
 		}
 		// a type met a second time is referred to by name with an empty placeholder: the schema with
-		// content is the type's own; among those, the one generated for T itself is preferred to *T's
+		// content is the type's own; one component serves T and *T, so the nullable schema (generated
+		// for a pointer) is preferred, and otherwise the one generated for T itself
 		r := 1
 		if v := ref.Value; v.Properties != nil || v.Items != nil || v.AdditionalProperties.Schema != nil || v.Type != nil {
+			r += 4
+		}
+		if ref.Value.Nullable {
 			r += 2
 		}
 		if direct {
